@@ -66,7 +66,7 @@ def events_for(res, valid: List[int]) -> List[Tuple[int, Dict[str, List[Tuple]],
         return [(k, {"J": list(desc[k][1])}, None) for k in valid]
     if level == "jet":
         return [(0, {"J": [desc[k][1] for k in valid]}, None)]
-    return [(k, {"J1": [dummy] * desc[k][2][0], "J2": [dummy] * desc[k][2][1]}, desc[k][1]) for k in valid]
+    return [(k, {"J1": [dummy] * desc[k][2][0], "J2": [dummy] * desc[k][2][1], "J": list(desc[k][3])}, desc[k][1]) for k in valid]
 
 
 def case_code(idx: int, res, valid: List[int]) -> Tuple[str, str]:
@@ -120,11 +120,12 @@ def build_and_run(workdir: Path, name: str, chunk: List[Tuple[int, Any, List[int
 
 def parse_rows(out: str) -> Dict[Tuple[int, int], List[Dict[str, str]]]:
     rows: Dict[Tuple[int, int], List[Dict[str, str]]] = {}
-    for l in out.split("\n"):
+    lines = out.split("\n")
+    for l in lines[:-1]:  # only complete lines
         if not l.startswith("ROW "):
             continue
         t = l.split()
-        vals = [{"k": t[i], "v": t[i + 1]} for i in range(3, len(t), 2)]
+        vals = [{"k": t[i], "v": ("0" if t[i + 1] == "9223372036854775808" and t[i] in ("float", "double") else t[i + 1])} for i in range(3, len(t), 2)]  # -0.0 == 0.0
         rows[(int(t[1]), int(t[2]))] = vals
     return rows
 
@@ -133,10 +134,31 @@ def run_compiled(ctx, results, accepted: List[int], spec_request, judge_spec, HO
     """results: the evaluated cases of the run; accepted: indices of those the translator accepted, readable, outside the
     defect exclusions."""
     todo: List[Tuple[int, Any, List[int]]] = []
+
+    def valid_of(res) -> set:
+        rows = res["spec"].get("rows") or []
+        return {k for k, row in enumerate(rows) if row.get("inq") and row.get("py") is not None}
+
+    # a row's body computes all its columns: a sample is run only if it is valid for every column of the row, and a
+    # row with a column inside a defect exclusion (or not accepted) is left to the text-level oracle
+    row_valid: Dict[str, set] = {}
+    row_bad: set = set()
+    acc_set = set(accepted)
+    for idx, res in enumerate(results):
+        q = res["form"].get("_rowquery")
+        if q is None:
+            continue
+        if idx not in acc_set:
+            row_bad.add(q)
+        else:
+            row_valid[q] = row_valid[q] & valid_of(res) if q in row_valid else valid_of(res)
     for idx in accepted:
         res = results[idx]
-        rows = res["spec"].get("rows") or []
-        valid = [k for k, row in enumerate(rows) if row.get("inq") and row.get("py") is not None]
+        q = res["form"].get("_rowquery")
+        if q is not None and q in row_bad:
+            ctx.count("g++:row-with-excluded-column-skipped")
+            continue
+        valid = sorted(valid_of(res) if q is None else row_valid[q])
         if valid:
             todo.append((idx, res, valid))
     if not todo:
@@ -162,7 +184,7 @@ def run_compiled(ctx, results, accepted: List[int], spec_request, judge_spec, HO
                 res = results[idx]
                 key = X.form_key(res["form"], res["level"])
                 if key not in known_keys:
-                    ctx.violation(key=key, what=f"the generated code does not compile: {msg}", case={"level": res["level"], "form": res["form"], "query": X.form_src(res["form"], res["level"])}, observed={"emitted": res["impl"]["lines"] + [res["impl"]["fill"]], "g++": msg}, how=HOW)
+                    ctx.violation(key=key, what=f"the generated code does not compile: {msg}", case={"level": res["level"], "form": res["form"], "query": X.form_src(res["form"], res["level"])}, observed={"emitted": res["impl"].get("leaf_decls", []) + res["impl"]["lines"] + [res["impl"]["fill"]], "g++": msg}, how=HOW)
             if not o["bad"]:
                 raise RuntimeError("g++ failed on the mock harness itself:\n" + o["compile_error"])
             continue
@@ -189,7 +211,7 @@ def run_compiled(ctx, results, accepted: List[int], spec_request, judge_spec, HO
             if missing:
                 key = X.form_key(form, level)
                 if o["rc"] != 0 and key not in known_keys:
-                    ctx.violation(key=key, what=f"the compiled job stopped (exit status {o['rc']}) before filling this column", case={"level": level, "form": form, "query": X.form_src(form, level)}, observed={"emitted": res["impl"]["lines"] + [res["impl"]["fill"]]}, how=HOW)
+                    ctx.violation(key=key, what=f"the compiled job stopped (exit status {o['rc']}) before filling this column", case={"level": level, "form": form, "query": X.form_src(form, level)}, observed={"emitted": res["impl"].get("leaf_decls", []) + res["impl"]["lines"] + [res["impl"]["fill"]]}, how=HOW)
                 ctx.count("g++:no-output")
                 continue
             reqs.append(spec_request(res, observed))
